@@ -10,7 +10,7 @@ Definition lpaths (l : list litem) : list (list N) := map l_path l.
 
 (* ---- K1: include [d, !d/c, d], tree d/{c,e}: the copier does not copy d/c ---- *)
 Lemma k1_copy :
-  exists fs' log, copy_sel pm_lit k1_cfg (SrcDir st_dir k1_view) empty_dst = (fs', log, None)
+  exists fs' log, copy_sel pm_lit k1_cfg false (SrcDir st_dir k1_view) empty_dst = (fs', log, None)
     /\ lpaths log = map bs ["d"; "d/e"]%string
     /\ lpaths (flat_items (keep_naive pm_lit k1_cfg) k1_view) = map bs ["d"; "d/c"; "d/e"]%string
     /\ log <> flat_items (keep_naive pm_lit k1_cfg) k1_view.
@@ -25,7 +25,7 @@ Proof. vm_compute. auto. Qed.
 (* ---- unsafe star literal: include [a{2}/*], tree aa/x: the copier copies aa, aa/x; the walk
         (as the code runs it, pruning by byte prefix) reports nothing ---- *)
 Lemma k5_copy :
-  exists fs' log, copy_sel pm_k5 k5_cfg (SrcDir st_dir k5_view) empty_dst = (fs', log, None)
+  exists fs' log, copy_sel pm_k5 k5_cfg false (SrcDir st_dir k5_view) empty_dst = (fs', log, None)
     /\ lpaths log = map bs ["aa"; "aa/x"]%string
     /\ filter_walk pm_k5 id_map k5_cfg k5_view = []
     /\ map l_st log <> filter_walk pm_k5 id_map k5_cfg k5_view.
@@ -42,7 +42,7 @@ Lemma copy_ne_naive_refuted_proof :
   exists pmatch c rootst view fs0 fs' log,
     prefix_semantics pmatch /\ wf_tree view = true /\ wf_strict view = true /\
     all_paths (nls_path pmatch c) view = false /\
-    copy_sel pmatch c (SrcDir rootst view) fs0 = (fs', log, None) /\
+    copy_sel pmatch c false (SrcDir rootst view) fs0 = (fs', log, None) /\
     log <> flat_items (keep_naive pmatch c) view.
 Proof.
   destruct k1_copy as (fs' & log & H & _ & _ & Hne). destruct k1_wf as (W1 & W2 & W3).
@@ -53,7 +53,7 @@ Qed.
 Lemma copy_ne_filter_walk_refuted_proof :
   exists pmatch c rootst view fs0 fs' log,
     prefix_semantics pmatch /\ wf_tree view = true /\ cfg_star_safe c = false /\
-    copy_sel pmatch c (SrcDir rootst view) fs0 = (fs', log, None) /\
+    copy_sel pmatch c false (SrcDir rootst view) fs0 = (fs', log, None) /\
     map l_st log <> filter_walk pmatch id_map c view.
 Proof.
   destruct k5_copy as (fs' & log & H & _ & _ & Hne).
@@ -83,7 +83,7 @@ Definition meta (o : option Tree.entry) : option (N * N * N * list (list N * lis
   option_map (fun e : Tree.entry => (st_mode (fst e), st_uid (fst e), st_gid (fst e), st_xattrs (fst e))) o.
 
 Definition run_ex (pm : list N -> list N -> bool) (c : cfg) (fs0 : dfs) (look : list string) :=
-  let '(fs', log, e) := copy_sel pm c (SrcDir st_dir c16_view) fs0 in
+  let '(fs', log, e) := copy_sel pm c false (SrcDir st_dir c16_view) fs0 in
   (e, map (fun it => (l_path it, l_sel it)) log, map (fun p => meta (fs' (bs p))) look).
 
 Definition cfg_deep : cfg := {| c_inc := Some [ip "a/b/bar/fop"]; c_exc := None; c_prune := true |}.
@@ -97,6 +97,6 @@ Definition dst_file_a : dfs :=
            else None.
 
 Definition log_of (pm : list N -> list N -> bool) (c : cfg) (view : list node) (fs0 : dfs) : list litem :=
-  let '(_, log, _) := copy_sel pm c (SrcDir st_dir view) fs0 in log.
+  let '(_, log, _) := copy_sel pm c false (SrcDir st_dir view) fs0 in log.
 Definition err_of (pm : list N -> list N -> bool) (c : cfg) (view : list node) (fs0 : dfs) : option cerr :=
-  let '(_, _, e) := copy_sel pm c (SrcDir st_dir view) fs0 in e.
+  let '(_, _, e) := copy_sel pm c false (SrcDir st_dir view) fs0 in e.
